@@ -171,6 +171,14 @@ func (r *Run) watchdog(d time.Duration) {
 			if idle := time.Since(time.Unix(0, r.progress.Load())); idle > d {
 				fmt.Fprintf(os.Stderr, "watchdog: no progress for %s, goroutine dump follows\n", idle.Round(time.Second))
 				_ = pprof.Lookup("goroutine").WriteTo(os.Stderr, 2)
+				r.mu.Lock()
+				viol := r.violations
+				r.mu.Unlock()
+				if viol > 0 {
+					// violations were observed and reported before the stall: they stand
+					fmt.Printf("%s %s seed=%d: run stalled (no progress for %s) after %d violation(s) had been reported; ended by the watchdog\n", r.Prop, r.Tier, r.Seed, idle.Round(time.Second), viol)
+					os.Exit(1)
+				}
 				fmt.Printf("INCONCLUSIVE property=%s no progress for %s (stall in the code under test or in the harness); partial results discarded\n", r.Prop, idle.Round(time.Second))
 				os.Exit(2)
 			}
